@@ -52,7 +52,7 @@ fn decode(i: usize, which: usize) -> GlobalCfg {
     }
 }
 
-fn program(globals: &[GlobalCfg]) -> String {
+fn program(globals: &[GlobalCfg], stanzas: bool) -> String {
     let mut t = String::new();
     for (i, g) in globals.iter().enumerate() {
         t.push_str(&format!("global g{}{}", i, g.quant));
@@ -60,6 +60,10 @@ fn program(globals: &[GlobalCfg]) -> String {
             t.push_str(&format!(" = {}", escape_string(d)));
         }
         t.push('\n');
+    }
+    if !stanzas {
+        // a file that only declares globals: the declarations are still checked
+        return t;
     }
     t.push_str("\n(module)\n{\n  node n\n");
     for (i, _) in globals.iter().enumerate() {
@@ -125,8 +129,8 @@ fn snapshot(v: &Variables) -> BTreeMap<String, String> {
     v.iter().map(|(k, val)| (k.as_str().to_string(), format!("{:?}", val))).collect()
 }
 
-fn run_config(globals: &[GlobalCfg], nested: bool, out: &mut Out) -> bool {
-    let text = program(globals);
+fn run_config(globals: &[GlobalCfg], nested: bool, stanzas: bool, out: &mut Out) -> bool {
+    let text = program(globals, stanzas);
     let source = "pass";
     let tree = parse_python(source);
     let ti = TreeInfo::new(&tree);
@@ -215,6 +219,13 @@ fn run_config(globals: &[GlobalCfg], nested: bool, out: &mut Out) -> bool {
                 return false;
             }
             Ok(Ok(Ok(g))) => match &want {
+                Want::Values(_) if !stanzas => {
+                    if !g.nodes.is_empty() {
+                        out.violation(&format!("C16:wrong-graph:{}", mode), "a file without stanzas produced graph nodes", case());
+                        return false;
+                    }
+                    out.feat("stanza_less_file_ok");
+                }
                 Want::Values(vals) => {
                     if g.nodes.len() != 2 {
                         out.violation(&format!("C16:wrong-graph:{}", mode), &format!("expected two nodes, got {}", g.nodes.len()), case());
@@ -315,13 +326,48 @@ impl Prop for C16 {
             }
             return;
         }
+        if idx == STATIC_CASES.len() {
+            // a shorthand parameter with the name of a global hides it: load-time rejection or a
+            // run-time error are both fine, silently reading the global (or the argument) is not
+            let text = "global g\nattribute sh = g => tag = g\n(module) { node n attr (n) sh = \"argument\" }";
+            if let Loaded::Ok(file) = exec::load(text) {
+                let tree = parse_python("pass");
+                let functions = super::common::stdlib();
+                let mut vars = Variables::new();
+                let _ = vars.add(Identifier::from("g"), "supplied".into());
+                for lazy in [false, true] {
+                    let r = catch(|| {
+                        let config = ExecutionConfig::new(&functions, &vars).lazy(lazy);
+                        file.execute(&tree, "pass", &config, &NoCancellation).is_ok()
+                    });
+                    out.eval();
+                    match r {
+                        Ok(true) => {
+                            out.violation("C16:shorthand-parameter-hides-global", &format!("a shorthand parameter named like a global was accepted and executed ({})", if lazy { "lazy" } else { "strict" }), json!({"dsl": text}));
+                            return;
+                        }
+                        Ok(false) => out.feat("shorthand_parameter_hiding_global_rejected"),
+                        Err(p) => {
+                            out.violation("C16:panic", &format!("{}: {}", p.location, p.message), json!({"dsl": text}));
+                            return;
+                        }
+                    }
+                }
+            } else {
+                out.feat("shorthand_parameter_hiding_global_rejected");
+            }
+        }
         let k = idx - STATIC_CASES.len();
         let product = (ONE + TWO + cfg.nshards - 1) / cfg.nshards;
         if k < product {
             let ci = k * cfg.nshards + cfg.shard;
             if ci < ONE {
                 let g = decode(ci / 2, 0);
-                if run_config(&[g], ci % 2 == 1, out) {
+                let stanza_less = run_config(&[g.clone()], ci % 2 == 1, false, out);
+                if stanza_less {
+                    out.feat("product:one_global_no_stanzas");
+                }
+                if run_config(&[g], ci % 2 == 1, true, out) {
                     out.feat("product:one_global");
                 }
             } else if ci < ONE + TWO {
@@ -330,7 +376,7 @@ impl Prop for C16 {
                 let c = c / 2;
                 let a = decode(c / PER_GLOBAL, 0);
                 let b = decode(c % PER_GLOBAL, 1);
-                if run_config(&[a, b], nested, out) {
+                if run_config(&[a, b], nested, true, out) {
                     out.feat("product:two_globals");
                 }
             }
@@ -351,7 +397,7 @@ impl Prop for C16 {
                 g
             })
             .collect();
-        if run_config(&gs, rng.chance(1, 2), out) {
+        if run_config(&gs, rng.chance(1, 2), true, out) {
             out.feat("sampled:three_or_four_globals");
         }
     }
